@@ -175,9 +175,67 @@ func runC04(c *Ctx) {
 	// ---- R04.8: adding a document does not depend on what is already in the corpus -----
 	checkUnconditionalAdd(c, p)
 
+	// ---- R04.9: what the tokenizer found is reported whatever the corpus holds ----------
+	checkNoConstantResults(c, p)
+
 	if c.Tier == "thorough" {
 		vtaCrossCheck(c, p, "R04.1", "(*Classifier).Match", matchFn, matchExplorer, matchScope)
 	}
+}
+
+// checkNoConstantResults: R04.9. The copyright notices and the number of input lines come from the input alone. A
+// successful return of match therefore never carries a Results whose TotalInputLines or Matches are constants (zero,
+// nil): such a shortcut is taken depending on which documents are in the corpus (e.g. "no document passed the first
+// pass"), so the same input gives different Results for a superset of the corpus.
+func checkNoConstantResults(c *Ctx, p *core.Prog) {
+	m := p.Func(v2pkg, "(*Classifier).match")
+	if !c.R.Anchor(m != nil, "v2.(*Classifier).match") {
+		return
+	}
+	n := 0
+	for _, b := range m.Blocks {
+		ret, ok := b.Instrs[len(b.Instrs)-1].(*ssa.Return)
+		if !ok || len(ret.Results) != 2 {
+			continue
+		}
+		if cst, isC := ret.Results[1].(*ssa.Const); !isC || cst.Value != nil {
+			continue // an error is returned
+		}
+		n++
+		// the Results value: a load of a local struct, or a zero constant
+		bad := ""
+		switch x := ret.Results[0].(type) {
+		case *ssa.Const:
+			bad = "the zero Results"
+		case *ssa.UnOp:
+			if al, isAl := x.X.(*ssa.Alloc); isAl {
+				fields := map[string]ssa.Value{}
+				for _, r := range *al.Referrers() {
+					if fa, isFA := r.(*ssa.FieldAddr); isFA {
+						for _, u := range *fa.Referrers() {
+							if st, isSt := u.(*ssa.Store); isSt && st.Addr == fa {
+								fields[core.FieldName(fa)] = st.Val
+							}
+						}
+					}
+				}
+				for _, f := range []string{"TotalInputLines", "Matches"} {
+					v, set := fields[f]
+					if !set {
+						bad = "a Results without " + f
+						break
+					}
+					if _, isC := v.(*ssa.Const); isC {
+						bad = "a Results with a constant " + f
+						break
+					}
+				}
+			}
+		}
+		c.R.Check(bad == "", "R04.9", "match: a successful return reports the tokenizer's notices and line count", p.Pos(ret.Pos()), "Matches and TotalInputLines are computed from the tokenised input",
+			"a successful return carries "+bad+": the copyright notices found by the tokenizer and the number of input lines are dropped on a shortcut that depends on the corpus (no document passed the first pass), so adding an unrelated document changes the Results of the same input")
+	}
+	c.R.RequireMin("R04.9", "successful returns of match", n, 1)
 }
 
 // checkUnconditionalAdd: R04.8. Results must not depend on the order in which documents were added nor
